@@ -235,7 +235,7 @@ impl SubCheck for Registry {
 		"registry"
 	}
 	fn cases(&self, tier: Tier) -> u32 {
-		tier.pick(20_000, 500_000)
+		tier.pick(60_000, 1_200_000)
 	}
 	fn strategy(&self, tier: Tier) -> BoxedStrategy<C13Case> {
 		let max = tier.pick(25usize, 60);
